@@ -249,7 +249,8 @@ def main():
                            "F4 the fault-free run is deterministic"],
             "known_findings_hit": known_hit,
             "fault_tier_finding_keys": [v["finding_key"] for v in r1.get("violations", [])],
-            "exhaustive": True,
+            "fault_table_enumerated_completely_per_scenario": True,
+            "exhaustive": False,
         },
         "assumptions": ["evaluations / distinct_nontrivial count the fault tier only; the conformance tier is reported separately under coverage.conformance_tier and contains no fault or schedule",
                         "the name mapping Python -> Rust in sim_py/twin/src/main.rs is the statement of 'the corresponding Rust operation'; reflected operators are c + x, -x + c, x * c, x.recip() * c",
